@@ -11,10 +11,45 @@ namespace GlueVerif.C18Combo
 
 /-! ## 1. `ComponentIDComboHelper.refresh` as a pure function -/
 
-/-- `Data.get_kind(cid)`. -/
+/-- `Data.get_kind(cid)`: the three kinds that have a filter flag, and `extended` — the kind of an
+`ExtendedComponent` (the region column of a `RegionData`), which stands for *every kind that has no
+filter flag*: `refresh` is a whitelist, such a component is never offered (`kindOk`). -/
 inductive Kind where
   | numerical | categorical | datetime | extended
   deriving DecidableEq, Repr
+
+/-- every value `Data.get_kind` can return (checked against the code by family `kinds`). -/
+def Kind.all : List Kind := [.numerical, .categorical, .datetime, .extended]
+
+/-- the `Component` classes of `glue.core.component` (`coordPixel` / `coordWorld`: a
+`CoordinateComponent` with `world = False / True`).  Family `kinds` enumerates the subclasses that
+exist in the tree under test and fails on any that is not listed here. -/
+inductive CompClass where
+  | component | categorical | datetime | derived | coordPixel | coordWorld | dask | extended
+  deriving DecidableEq, Repr
+
+def CompClass.all : List CompClass :=
+  [.component, .categorical, .datetime, .derived, .coordPixel, .coordWorld, .dask, .extended]
+
+/-- `Data.get_kind` of a component of the given class, as the harness builds them (a plain
+`Component` holds floats): `datetime` → `numeric` → `categorical` → `extended`, first hit. -/
+def CompClass.kind : CompClass → Kind
+  | .categorical => .categorical
+  | .datetime => .datetime
+  | .extended => .extended
+  | _ => .numerical
+
+/-- where `refresh` looks for a component of the class: `main_components` (subject to the kind
+filters), `derived_components`, `pixel_component_ids`, `world_component_ids`. -/
+inductive Table where
+  | main | derived | pixel | world
+  deriving DecidableEq, Repr
+
+def CompClass.table : CompClass → Table
+  | .derived => .derived
+  | .coordPixel => .pixel
+  | .coordWorld => .world
+  | _ => .main
 
 /-- What `refresh` reads from one dataset: `main_components` with their kinds, the derived
 components whose `parent` is the dataset, `pixel_component_ids`, `world_component_ids`. -/
@@ -97,6 +132,27 @@ def offered (F : Flags) (d : DS) (c : Nat) : Prop :=
 
 /-- every id a dataset can offer. -/
 def allCids (d : DS) : List Nat := d.main.map (·.1) ++ d.derived ++ d.pixel ++ d.world
+
+/-- Spec, class by class: which flags put a component of the class on offer.  An
+`ExtendedComponent` matches no kind filter: it is never offered, whatever the flags. -/
+def classOk (F : Flags) : CompClass → Bool
+  | .component => F.numeric
+  | .dask => F.numeric
+  | .categorical => F.categorical
+  | .datetime => F.datetime
+  | .derived => F.numeric && F.derived
+  | .coordPixel => F.pixel
+  | .coordWorld => F.world
+  | .extended => false
+
+/-- a dataset whose only component is `c`, of class `cls`, in the table where `refresh` looks for
+that class. -/
+def classDS (cls : CompClass) (c : Nat) : DS :=
+  match cls.table with
+  | .main => { id := 0, main := [(c, cls.kind)], derived := [], pixel := [], world := [] }
+  | .derived => { id := 0, main := [], derived := [c], pixel := [], world := [] }
+  | .pixel => { id := 0, main := [], derived := [], pixel := [c], world := [] }
+  | .world => { id := 0, main := [], derived := [], pixel := [], world := [c] }
 
 /-! ## 2. echo's selection rule -/
 
@@ -206,9 +262,42 @@ def defaultFlags : Flags :=
   { numeric := true, datetime := true, categorical := true, pixel := false, world := false,
     derived := true, none := false }
 
-def cinit (n : Nat) (idx : Int) : CState :=
-  { nData := n, nCid := 5 * n, data := initDS, inDc := List.range n, hdata := [], F := defaultFlags,
+/-- a fresh helper (`ComponentIDComboHelper(state, prop, data_collection)`) next to `n` datasets
+with arbitrary component tables. -/
+def cinitWith (n nCid : Nat) (data : Nat → DS) (idx : Int) : CState :=
+  { nData := n, nCid := nCid, data := data, inDc := List.range n, hdata := [], F := defaultFlags,
     pick := ⟨idx, [], none⟩, depth := 0, queue := [], err := false }
+
+def cinit (n : Nat) (idx : Int) : CState := cinitWith n (5 * n) initDS idx
+
+/-- a dataset template of the correspondence families: the kinds of its main components, the number
+of derived components it owns, of pixel and of world coordinates.  Ids are numbered in the order
+pixel, world, main, derived from `base`. -/
+structure Tmpl where
+  main : List Kind
+  nder : Nat
+  npix : Nat
+  nworld : Nat
+  deriving DecidableEq, Repr
+
+def Tmpl.size (t : Tmpl) : Nat := t.npix + t.nworld + t.main.length + t.nder
+
+def tmplDS (t : Tmpl) (id base : Nat) : DS :=
+  { id := id,
+    pixel := (List.range t.npix).map (base + ·),
+    world := (List.range t.nworld).map (base + t.npix + ·),
+    main := ((List.range t.main.length).zip t.main).map fun p => (base + t.npix + t.nworld + p.1, p.2),
+    derived := (List.range t.nder).map (base + t.npix + t.nworld + t.main.length + ·) }
+
+/-- the component tables of a list of templates: dataset `i` starts where dataset `i - 1` ended. -/
+def tmplTable : List Tmpl → Nat → Nat → Nat → DS
+  | [], _, _, i => { id := i, main := [], derived := [], pixel := [], world := [] }
+  | t :: ts, k, base, i => if i = k then tmplDS t i base else tmplTable ts (k + 1) (base + t.size) i
+
+def tmplTotal (ts : List Tmpl) : Nat := (ts.map Tmpl.size).sum
+
+def cinitT (ts : List Tmpl) (idx : Int) : CState :=
+  cinitWith ts.length (tmplTotal ts) (tmplTable ts 0 0) idx
 
 def upd {α : Type} (f : Nat → α) (k : Nat) (v : α) : Nat → α := fun x => if x = k then v else f x
 
